@@ -26,4 +26,7 @@ int vb_truthy(int b, unsigned long salt);
  * scheme 0: "k<i>", 1: "k<n-1-i>", 2: decimal digits of a wrong index, 3: "value" on every second element. The value denoted is unchanged. */
 void vb_stale_keys(cJSON *t, int scheme);
 void vb_stale_clear(cJSON *t);
+/* payload fields a node's type does not use keep whatever an earlier life left in them: valueint of true is 1 from the parser and 0 from cJSON_CreateTrue,
+ * a false that was true (cJSON_SetBoolValue) keeps 1, strings / null / containers carry arbitrary valueint / valuedouble.  scheme 0/1: two different fillings */
+void vb_payload(cJSON *t, int scheme);
 #endif
